@@ -18,7 +18,10 @@ SPEC = {
              "second run = racing rounds (200 quick / 5000 thorough, plus a quarter of that under the protector's own ticker): 600 "
              "addresses with an elapsed, unswept ban, 8 goroutines add the threshold-reaching failure to each while the real "
              "cleanup() runs; every address whose RecordFailure reported a ban must answer IsBanned=true (observation `lost k`, "
-             "judged by holdsBF on the least favourable scan/failure/delete placement); hit statistics in the distribution"),
+             "judged by holdsBF on the least favourable scan/failure/delete placement); hit statistics in the distribution; "
+             "race2: 12 simultaneous AllowIP calls of one address without a bucket (first contact, or just evicted), parked on the "
+             "table lock (deterministic) or behind a spin barrier, 300 rounds quick / 4000 thorough per flavour; observation = excess "
+             "over the burst after allowing the refill over the measured span, judged by holdsRLX on the all-lookups-first placement"),
     "trusted_base": [
         "Lean 4.33 kernel; axioms propext, Classical.choice, Quot.sound only (audited per theorem on every run)",
         "extractor /verif/extract: defaults, config literals, BanRecord.isExpired / IPRecord.isExpired and 17 call skeletons "
